@@ -179,12 +179,12 @@ def _closest(ctx) -> None:
 
 def run(ctx) -> None:
     ctx.explanation = EXPLANATION
-    _diff(ctx)
-    _carrier(ctx)
-    _operators(ctx)
-    _closest(ctx)
+    ctx.step(_diff, ctx)
+    ctx.step(_carrier, ctx)
+    ctx.step(_operators, ctx)
+    ctx.step(_closest, ctx)
     from ..rules import addduration as AD
-    AD.carry_blocks(ctx)       # Time.add/subtract run on DateTime.add -> add_duration's carry chain
+    ctx.step(AD.carry_blocks, ctx)       # Time.add/subtract run on DateTime.add -> add_duration's carry chain
     ctx.expect_min("UNITS.components", 2)
     ctx.expect_min("CARRIER", 5)
     ctx.expect_min("ORDER", 4)
